@@ -165,7 +165,7 @@ class System:
         for name in ("peak_frequencies", "peak_amplitudes"):
             raw = getattr(o, name)
             obs.append(_nonan(tuple(np.asarray(raw, dtype=float).tolist())))
-            _scribble(raw)
+            _scribble(raw, o)
         return tuple(obs)
 
     # ---- invariant ---------------------------------------------------------
@@ -353,7 +353,7 @@ def _call(o, name, args, d):
     if v.ndim == 0:
         return float(v)
     out = tuple(map(tuple, v.tolist())) if v.ndim == 2 else tuple(v.tolist())
-    _scribble(raw)
+    _scribble(raw, o)
     return out
 
 
@@ -364,11 +364,18 @@ def _reuse_dict(kw):
         kw["width"] = 7
 
 
-def _scribble(raw):
+def _scribble(raw, owner=None):
     """The caller owns what an accessor returned: overwrite it in place (as ``a /= a.max()`` or
-    ``np.reciprocal(p, out=p)`` would) so that a later answer computed from shared storage is wrong."""
-    if isinstance(raw, np.ndarray) and raw.flags.writeable and raw.dtype.kind == "f":
-        raw.fill(-7.25)
+    ``np.reciprocal(p, out=p)`` would) so that a later answer computed from shared storage is wrong.
+    The object's public data attributes (``amplitude``, ``frequency``) are the object's data, not a returned
+    result: a diffuse-field object's mean curve IS its amplitude attribute and is left alone."""
+    if not (isinstance(raw, np.ndarray) and raw.flags.writeable and raw.dtype.kind == "f"):
+        return
+    for name in ("amplitude", "frequency"):
+        data = getattr(owner, name, None)
+        if isinstance(data, np.ndarray) and np.shares_memory(raw, data):
+            return
+    raw.fill(-7.25)
 
 
 def _nonan(v):
